@@ -262,8 +262,10 @@ class C06(core.Prop):
                         f.write('stale,content\n1,2\n')
             try:
                 with quiet(), contextlib.redirect_stdout(io.StringIO()):
-                    ver = verify_df(self._indexed(cx.to_df(case['frame']), case), cons, epsilon=epsf, repair=False)
-                    v = detect_df(df, cons, epsilon=epsf, repair=False, outpath=outpath,
+                    # strict type checking in a third of the cases (detection is verification plus the records)
+                    tkw = {'type_checking': 'strict'} if case.get('strict', case['frame']['nrows'] % 3 == 0) else {}
+                    ver = verify_df(self._indexed(cx.to_df(case['frame']), case), cons, epsilon=epsf, repair=False, **tkw)
+                    v = detect_df(df, cons, epsilon=epsf, repair=False, outpath=outpath, **tkw,
                                   per_constraint=o['per_constraint'], write_all=o['write_all'],
                                   output_fields=o['output_fields'], index=o['index'], in_place=o['in_place'],
                                   boolean_ints=o['boolean_ints'])
@@ -299,7 +301,7 @@ class C06(core.Prop):
                 return F
             # per-record flags (recomputed from a per-constraint, all-records detection on a fresh copy)
             with quiet(), contextlib.redirect_stdout(io.StringIO()):
-                v2 = detect_df(cx.to_df(case['frame']), cons, epsilon=epsf, repair=False,
+                v2 = detect_df(cx.to_df(case['frame']), cons, epsilon=epsf, repair=False, **tkw,
                                per_constraint=True, output_fields=[], write_all=True)
             det = v2.detected()
             if det is None:
